@@ -235,27 +235,32 @@ fn variant(rng: &mut Rng, base: &str) -> Ident {
     }
 }
 fn gen_table_ref(rng: &mut Rng) -> Ref {
-    let t = variant(rng, rng.clone().pick(&TABLE_BASES));
-    let _ = rng.next();
-    match rng.below(20) {
-        0..=8 => vec![t],
-        9..=14 => vec![variant(rng, pick_schema(rng)), t],
-        15..=18 => {
-            let c = if rng.chance(1, 8) { "zz" } else if rng.chance(1, 3) { "c1" } else { "datafusion" };
-            vec![variant(rng, c), variant(rng, pick_schema(rng)), t]
+    let base = TABLE_BASES[rng.below(TABLE_BASES.len() as u64) as usize];
+    let t = variant(rng, base);
+    match rng.below(40) {
+        0..=21 => vec![t],
+        22..=31 => {
+            let sc = pick_schema(rng);
+            vec![variant(rng, sc), t]
+        }
+        32..=37 => {
+            let c = if rng.chance(1, 10) { "zz" } else if rng.chance(1, 3) { "c1" } else { "datafusion" };
+            let sc = pick_schema(rng);
+            vec![variant(rng, c), variant(rng, sc), t]
         }
         _ => vec![variant(rng, "x"), variant(rng, "datafusion"), variant(rng, "public"), t],
     }
 }
 fn pick_schema(rng: &mut Rng) -> &'static str {
-    match rng.below(8) {
-        0..=3 => "public",
-        4..=6 => "s1",
+    match rng.below(10) {
+        0..=5 => "public",
+        6..=8 => "s1",
         _ => "s2",
     }
 }
 fn gen_schema_ref(rng: &mut Rng) -> Ref {
-    let s = variant(rng, pick_schema(rng));
+    let sc = pick_schema(rng);
+    let s = variant(rng, sc);
     match rng.below(12) {
         0..=6 => vec![s],
         7..=10 => {
@@ -541,8 +546,9 @@ async fn one_history(run: &mut Run, rng: &mut Rng, h: u64, max_len: u64) {
             &format!("info-tables-vs-table_exist history#{h} after {}", st.tag()),
             &format!("history {sqls:?}: information_schema.tables lists {listed:?} but table_exist finds {found:?}"),
         );
-        // ---- O3 bookkeeping
-        if !is_err && !same {
+        // ---- O3 bookkeeping (every successful DDL statement counts as a change of its key: an
+        // OR REPLACE with the same columns leaves the listings textually identical)
+        if !is_err && !matches!(st, Stmt::Select { .. }) {
             clock += 1;
             match &st {
                 Stmt::CreateTable { r, .. } | Stmt::DropTable { r, .. } | Stmt::DropView { r, .. } | Stmt::CreateView { r, .. } => {
@@ -616,7 +622,7 @@ pub fn run(run: &mut Run, args: &Args) {
     hutil::quiet_panics();
     let mut rng = Rng::new(args.seed);
     let rt = tokio::runtime::Builder::new_current_thread().enable_all().build().unwrap();
-    let n = run.budget(250, 6000);
+    let n = run.budget(1000, 20_000);
     let max_len = 10;
     rt.block_on(async {
         for h in 0..n {
